@@ -180,6 +180,8 @@ def numpy_route(raw):
             a = np.array(x, dtype=np.intc)
         elif isinstance(x, list) and x and all(isinstance(v, (int, float)) and not isinstance(v, bool) for v in x):
             a = np.array(x, dtype=np.intc if key == "samplers" else np.float64)
+            if a.size == 1:
+                a = a.reshape(())            # a single value in its most compact shape: a 0-d array
         elif isinstance(x, list) and x and all(isinstance(v, list) for v in x):
             a = np.array(x, dtype=np.float64)
             if a.shape[0] == 1:
